@@ -133,9 +133,27 @@ Definition late_claim (b : base) (te : Z * ev) : list rule :=
   | _ => []
   end.
 
+(* rule 2072: an instance that is shutting down (Stop, StopWithContext, cancelled context) drops its claim at the
+   instant the shutdown begins *)
+Definition late_drop (b : base) (t : Z) : list rule :=
+  flat_map (fun ic => let x := inst_of b (fst ic) in when (io_flag x && io_stopping x && (io_stop_t x <? t)) 2072) (b_cfgs b).
+
+(* rules 2073, 2074: the refresh loop of a term is sequential (a new attempt starts only when the previous one has
+   been answered or has timed out) and refreshes against the latest revision of its term *)
+Definition refresh_order (b : base) (te : Z * ev) : list rule :=
+  match snd te with
+  | EIssue i op kind inner root gid key val exp =>
+      let x := inst_of b i in
+      if (kind =? kUpdate) && (inner =? sHeartbeat) && io_flag x && (tok_of b val =? io_tok x) then
+        when (negb ((0 <=? io_hb_te x) || (gen_hb_update_timeout (ic_H (cfg_of b i)) <=? fst te - io_hb_ta x))) 2073 ++
+        when (negb (match io_views x with (tk, r) :: _ => (tk =? io_tok x) && (r =? exp) | [] => false end)) 2074
+      else []
+  | _ => []
+  end.
+
 (* rule 2000: observations are in time order *)
 Definition guards (b : base) (te : Z * ev) : list rule :=
-  guards0 b te ++ overdue_ticks b (fst te) ++ when (fst te <? b_now b) 2000 ++ late_claim b te.
+  guards0 b te ++ overdue_ticks b (fst te) ++ when (fst te <? b_now b) 2000 ++ late_claim b te ++ late_drop b (fst te) ++ refresh_order b te.
 
 (* a trace is admitted when every observation satisfies the rules *)
 Fixpoint admits (b : base) (tr : trace) : bool :=
